@@ -207,7 +207,7 @@ Definition tryNextSasl (c : cfg) (s : st) : R :=
   match snext s with
   | m :: r => send (with_sasl s r (Some m)) s_AUTH [upper m]
   | [] =>
-      if c_required c then ret s            (* log.error only *)
+      if c_required c then reconnect c s None true     (* log.error; the connection is dropped *)
       else
         transition gen.T08.EV_on_sasl_auth_finished (with_sasl s [] None) >>> fun s =>
         if N.eqb (fsm s) INIT_CAP then endCap c s else ret s
